@@ -1,6 +1,8 @@
 package main
 
 import (
+	"golang.org/x/tools/go/ssa"
+	"go/types"
 	"regexp"
 	"os/exec"
 	"encoding/json"
@@ -21,6 +23,7 @@ type Prop struct {
 	Packages       []string `json:"packages"`
 	Functions      []string `json:"functions"`
 	ThoroughOnly   []string `json:"thorough_functions"` // verified in the thorough tier only (path-heavy functions)
+	Sweep          []string `json:"sweep_functions"`    // no contract of their own: safety sweep under the synthetic contract of sweepSpec
 	Lemmas         []string `json:"lemmas"`
 	MinObligations int      `json:"min_obligations"`
 	Bounded        []struct {
@@ -149,6 +152,30 @@ func cmdCheck(args []string) int {
 			continue
 		}
 		c := newCtx(P, ss, f, sp, key)
+		if err := c.verify(); err != nil {
+			undec = append(undec, err.Error())
+			continue
+		}
+		for _, u := range c.Undecided {
+			undec = append(undec, key+": "+u)
+		}
+		ctxs = append(ctxs, c)
+	}
+	// zero-annotation safety sweep: functions without a contract of their own, checked for panics (index, slice, nil,
+	// explicit panic, division) under the synthetic contract "pointer receiver and pointer parameters are not nil";
+	// loops are cut with the invariant `true`
+	for _, key := range prop.Sweep {
+		f := P.Funcs[key]
+		if f == nil {
+			undec = append(undec, "function under contract not found: "+key)
+			continue
+		}
+		if ss.specFor(f) != nil {
+			undec = append(undec, "sweep function has a contract of its own: "+key)
+			continue
+		}
+		c := newCtx(P, ss, f, sweepSpec(f), key)
+		c.assume("A-SWEEP: " + key + " has no contract of its own; it is checked for panics only, assuming that its pointer receiver and pointer parameters are not nil")
 		if err := c.verify(); err != nil {
 			undec = append(undec, err.Error())
 			continue
@@ -533,4 +560,22 @@ func runBounded(vd, cmd, tier string, seed int) (res string, cases int, out stri
 		return "error", cases, out
 	}
 	return "ok", cases, ""
+}
+
+// sweepSpec: the synthetic contract of the zero-annotation safety sweep.
+func sweepSpec(f *ssa.Function) *FuncSpec {
+	sp := &FuncSpec{Loops: map[int]*LoopSpec{}, NoSafety: map[string]bool{"frame": true}, CallSpecs: map[string]string{}, Modifies: []string{"heap"}, HasBody: true}
+	var conj []string
+	for _, p := range f.Params {
+		if _, ok := p.Type().Underlying().(*types.Pointer); ok && p.Name() != "" && p.Name() != "_" {
+			conj = append(conj, p.Name()+" != nil")
+		}
+	}
+	if len(conj) > 0 {
+		src := strings.Join(conj, " && ")
+		if e, err := parseSpecExpr(src); err == nil {
+			sp.Requires = append(sp.Requires, &Clause{Kind: "requires", Src: src, E: e, File: "(sweep)", Line: 0})
+		}
+	}
+	return sp
 }
